@@ -753,6 +753,7 @@ func (am *AccountingManager) persistActiveSession(session *AccountingSession) {
 	if err := os.Rename(tmp, path); err != nil {
 		am.logger.Debug("Failed to persist session", zap.Error(err))
 	}
+}
 
 // removePersistedSession removes a persisted session file
 func (am *AccountingManager) removePersistedSession(sessionID string) {
@@ -874,6 +875,12 @@ func (am *AccountingManager) recoverOrphanedSessions() error {
 
 	am.pendingMu.Lock()
 	for id, record := range records {
+		// pending.json is read back unchecked: an entry without a record or a
+		// request, or filed under another id, would crash the processor
+		if record == nil || record.Request == nil || record.ID != id {
+			am.logger.Warn("Ignoring malformed pending accounting record", zap.String("id", id))
+			continue
+		}
 		am.pendingRecords[id] = record
 		select {
 		case am.pendingQueue <- record:
